@@ -32,4 +32,9 @@ def replay(which):
     late_f = [int(x.split(':')[1]) for x in out.get('starting_filtered', '').split(',') if x.startswith('s:')]
     if late_f != [4, 6, 8]:
         bad.append('a subscriber that was still starting when 9 (filtered by its converter) and 4 were published must receive 4, 6, 8: %s' % late_f)
+    inst = [x for x in out.get('instant', '').split(',') if x]
+    for w in 'xy':
+        seq = [int(x.split(':')[1]) for x in inst if x.startswith(w + ':')]
+        if seq != [1, 2, 3, 4, 5]:
+            bad.append('subscriber %s, created with spawn_instant and subscribed before its start-up task ran, must receive 1..5 once, in order: %s' % (w, seq))
     return {'replayed': bool(bad), 'detail': 'native output-port script: %s ; deliveries %s ; late starter %s ; %s' % (bad, got, late, [x for x in log if x.startswith('subs_')]), 'replay': {'which': which}}
